@@ -62,7 +62,7 @@ def paramKind (p : Term) : Option CKind :=
 def componentIri (k : CKind) : Term :=
   match Dispatch.paramTable.find? (fun r => CKind.ofClassName r.2.1 = some k) with
   | some r => .iri r.2.2
-  | none => .iri "urn:notimplemented"
+  | none => sh "ExpressionConstraintComponent"
 
 inductive Result where
   | mk (focus : Term) (value : Option Term) (path : Option Term) (component : Term)
